@@ -1064,7 +1064,8 @@ class Machine:
             self.block(st.body if self.truth(ev(st.test, env), "if") else st.orelse, env)
         elif t is ast.For:
             broke = False
-            for item in self.iterate(ev(st.iter, env)):
+            seq = ev(st.iter, env)
+            for item in (_live(seq) if isinstance(seq, (list, bytearray)) else self.iterate(seq)):
                 self.tick()
                 self.bind(st.target, item, env)
                 try:
@@ -1207,6 +1208,14 @@ class Machine:
         finally:
             if st.finalbody:
                 self.block(st.finalbody, env)
+
+
+def _live(seq):
+    """Iterate a list the way Python does: by index over the live object, so elements appended during the loop are visited."""
+    i = 0
+    while i < len(seq):
+        yield seq[i]
+        i += 1
 
 
 def _walk_no_nested(node):
